@@ -759,9 +759,10 @@ def run_spec(args: dict, sandbox: str) -> dict:
             if prov.startswith("UNATTRIBUTED"):
                 viol("unattributed-file", prov, f"{rel} cannot be attributed to a top-level item (harness provenance)")
                 continue
-            if prov not in cone and a is not None and b is not None and _only_multipart_differs(a, b):
+            if a is not None and b is not None and _only_multipart_differs(a, b) and any("api" in k.split("/") and k not in t1 for k in t0):
+                # (also when the model itself lies inside a cone - as a dependant of a name-clash bystander, say - without being affected)
                 # the model is the multipart body of an operation inside the cone: its to_multipart() method follows the operation
-                users = [x for x in cone if x.startswith("E:")]
+                users = [x for x in cone if x.startswith("E:")] or sorted(k for k in t0 if "api" in k.split("/") and k not in t1)
                 viol("model-lost-to_multipart", "models", f"{rel} ({prov}) lost its to_multipart() method because the only operation(s) using it as a multipart body ({users[:3]}) were omitted")
             elif prov not in cone:
                 what = "missing" if b is None else ("new" if a is None else "changed")
